@@ -105,6 +105,23 @@ def run(tier):
             pair.reverse()
         for a, b in pair:
             tasks.append({'op': 'bin', 'lang': 'en', 'x': a, 'y': b, 'reps': 2})
+    # pairs mixing the two feature systems: a Japanese category against the feature-less (or one-part) spelling of its argument,
+    # under both grammars
+    def strip(c, how):
+        if c['k'] == 'F':
+            return gen.fun(strip(c['l'], how), c['s'], strip(c['r'], how))
+        return gen.atom(c['b'], gen.uf(how))
+    for _ in range(200):
+        c = rng.choice(inv['ja'])
+        how = rng.choice(['', '', 'nb', 'X', 'dcl'])
+        if c['k'] == 'F':
+            x0, y0 = (c, strip(c['r'], how)) if c['s'] == '/' else (strip(c['r'], how), c)
+            if rng.random() < 0.5:
+                x0, y0 = (strip(c, how), c['r']) if c['s'] == '/' else (c['r'], strip(c, how))
+        else:
+            x0, y0 = c, strip(rng.choice(inv['ja']), how)
+        for lang in ('ja', 'en'):
+            tasks.append({'op': 'bin', 'lang': lang, 'x': x0, 'y': y0, 'reps': 2})
     for i in range(300):
         x = gen.rand_cat(rng, 2, 'en', '/\\')
         y = gen.rand_cat(rng, 2, 'en', '/\\')
